@@ -168,3 +168,17 @@ package transactional
 //gvc:  ensures applied: err == nil && s.set ==> s.ShallowStorer.#shn == s.temporal.#shn
 //gvc:  ensures untouched: !s.set ==> s.ShallowStorer.#shn == old(s.ShallowStorer.#shn)
 //gvc:end
+
+// ObjectStorage.Commit (C19: Commit applies the whole transaction): every
+// object of the temporal storage -- of every type: the iterator is asked for
+// plumbing.AnyObject (-127) -- is handed, itself, to the base storage, and an
+// error of the base storage stops the commit.
+//gvc:func (*ObjectStorage).Commit
+//gvc:  props C19
+//gvc:  theory int
+//gvc:  opt coarse
+//gvc:  opt frame args
+//gvc:  sink IterEncodedObjects requires every: arg0 == -127
+//gvc:  sink SetEncodedObject requires itself: arg0 == obj
+//gvc:  ensures walked: result == nil ==> calls("IterEncodedObjects") == 1 && calls("ForEach") == 1
+//gvc:end
